@@ -23,26 +23,46 @@ theorem Frame.trans {a b c : State} (h1 : Frame a b) (h2 : Frame b c) : Frame a 
 
 theorem frame_ev (s : State) (es : List Ev) : Frame s (ev s es) := ⟨rfl, rfl, rfl, rfl, rfl⟩
 
-theorem loadMod_frame (i : Inst) (m : Mod) (s : State) (live : List Live) :
-    Frame s (loadMod i m s live).1 := by
+theorem frame_alloc (s : State) : Frame s (alloc s) := ⟨rfl, rfl, rfl, rfl, rfl⟩
+
+theorem loadModAt_frame (i : Inst) (m : Mod) (s : State) (live : List Live) :
+    Frame s (loadModAt i m s live).1 := by
+  unfold loadModAt
+  repeat' split
+  all_goals first | exact Frame.rfl' s | exact ⟨rfl, rfl, rfl, rfl, rfl⟩
+
+theorem loadMod_frame (cid app idx : Nat) (m : Mod) (s : State) (live : List Live) :
+    Frame s (loadMod cid app idx m s live).1 := by
   unfold loadMod
   split
   · exact Frame.rfl' s
-  · split
-    · exact ⟨rfl, rfl, rfl, rfl, rfl⟩
-    · split <;> exact ⟨rfl, rfl, rfl, rfl, rfl⟩
+  · exact (frame_alloc s).trans (loadModAt_frame _ _ _ _)
 
 theorem loadMods_frame (cid app : Nat) : ∀ (ms : List Mod) (idx : Nat) (s : State) (live : List Live),
     Frame s (loadMods cid app idx ms s live).1
   | [], _, s, _ => Frame.rfl' s
   | m :: ms, idx, s, live => by
     unfold loadMods
-    have h := loadMod_frame ⟨cid, app, idx⟩ m s live
-    generalize loadMod ⟨cid, app, idx⟩ m s live = r at h
+    have h := loadMod_frame cid app idx m s live
+    generalize loadMod cid app idx m s live = r at h
     obtain ⟨s', live', o⟩ := r
     cases o with
     | none => exact h.trans (loadMods_frame cid app ms (idx + 1) s' live')
     | some r => exact h
+
+theorem loadProbeAppAt_frame (i : Inst) (a : App) (s : State) (live : List Live) :
+    Frame s (loadProbeAppAt i a s live).1 := by
+  unfold loadProbeAppAt
+  have h := (frame_ev s [.prov i]).trans (loadMods_frame i.cid a.name a.mods 1 (ev s [.prov i]) live)
+  generalize loadMods i.cid a.name 1 a.mods (ev s [.prov i]) live = r at h
+  obtain ⟨s', live', o⟩ := r
+  cases o with
+  | none =>
+    dsimp only
+    split
+    · exact h.trans (frame_ev _ _)
+    · split <;> exact h.trans (frame_ev _ _)
+  | some r => exact h.trans (frame_ev _ _)
 
 theorem loadApp_frame (cid : Nat) (a : App) (s : State) (live : List Live) :
     Frame s (loadApp cid a s live).1 := by
@@ -56,17 +76,7 @@ theorem loadApp_frame (cid : Nat) (a : App) (s : State) (live : List Live) :
       cases o with
       | none => dsimp only; split <;> exact h
       | some r => exact h
-    · have h := (frame_ev s [.prov ⟨cid, a.name, 0⟩]).trans
-        (loadMods_frame cid a.name a.mods 1 (ev s [.prov ⟨cid, a.name, 0⟩]) live)
-      generalize loadMods cid a.name 1 a.mods (ev s [.prov ⟨cid, a.name, 0⟩]) live = r at h
-      obtain ⟨s', live', o⟩ := r
-      cases o with
-      | none =>
-        dsimp only
-        split
-        · exact h.trans (frame_ev _ _)
-        · split <;> exact h.trans (frame_ev _ _)
-      | some r => exact h.trans (frame_ev _ _)
+    · exact (frame_alloc s).trans (loadProbeAppAt_frame _ _ _ _)
 
 theorem loadApps_frame (cid : Nat) : ∀ (as : List App) (s : State) (live : List Live),
     Frame s (loadApps cid as s live).1
@@ -83,12 +93,14 @@ theorem loadApps_frame (cid : Nat) : ∀ (as : List App) (s : State) (live : Lis
 theorem openWriter_frame (k : Nat) (s : State) : Frame s (openWriter k s) := by
   unfold openWriter; split <;> exact ⟨rfl, rfl, rfl, rfl, rfl⟩
 
-theorem openLog_frame (i : Inst) (m : Mod) (s : State) (live : List Live) (wk : List Nat) :
-    Frame s (openLog i m s live wk).1 := by
+theorem openLog_frame (cid idx : Nat) (m : Mod) (s : State) (live : List Live) (wk : List Nat) :
+    Frame s (openLog cid idx m s live wk).1 := by
   unfold openLog
   split
   · exact Frame.rfl' s
-  · split
+  · refine (frame_alloc s).trans ?_
+    unfold openLogAt
+    split
     · exact frame_ev _ _
     · split
       · exact frame_ev _ _
@@ -99,8 +111,8 @@ theorem openLogsFrom_frame (cid : Nat) : ∀ (ms : List Mod) (idx : Nat) (s : St
   | [], _, s, _, _ => Frame.rfl' s
   | m :: ms, idx, s, live, wk => by
     unfold openLogsFrom
-    have h := openLog_frame ⟨cid, 100, idx⟩ m s live wk
-    generalize openLog ⟨cid, 100, idx⟩ m s live wk = r at h
+    have h := openLog_frame cid idx m s live wk
+    generalize openLog cid idx m s live wk = r at h
     obtain ⟨s', live', wk', o⟩ := r
     cases o with
     | none => exact h.trans (openLogsFrom_frame cid ms (idx + 1) s' live' wk')
@@ -117,13 +129,14 @@ theorem closeLogs_frame : ∀ (ks : List Nat) (s : State), Frame s (closeLogs ks
     · refine Frame.trans ?_ (closeLogs_frame ks _); exact ⟨rfl, rfl, rfl, rfl, rfl⟩
     · refine Frame.trans ?_ (closeLogs_frame ks _); exact ⟨rfl, rfl, rfl, rfl, rfl⟩
 
+theorem cleanupOne_frame (l : Live) (s : State) : Frame s (cleanupOne l s) := by
+  unfold cleanupOne; split <;> exact ⟨rfl, rfl, rfl, rfl, rfl⟩
+
 theorem cleanupAll_frame : ∀ (ls : List Live) (s : State), Frame s (cleanupAll ls s)
   | [], s => Frame.rfl' s
   | l :: ls, s => by
     unfold cleanupAll
-    split
-    · refine Frame.trans ?_ (cleanupAll_frame ls _); exact ⟨rfl, rfl, rfl, rfl, rfl⟩
-    · refine Frame.trans ?_ (cleanupAll_frame ls _); exact ⟨rfl, rfl, rfl, rfl, rfl⟩
+    exact (cleanupOne_frame l s).trans (cleanupAll_frame ls _)
 
 theorem cancel_frame (cid : Nat) (cbs wk : List Nat) (live : List Live) (s : State) :
     Frame s (cancel cid cbs wk live s) := by
@@ -226,9 +239,9 @@ theorem startApp_frame4 (cid : Nat) (blocked : List Nat) (a : App) (s : State) :
   · exact bindAll_frame4 _ _ _ _ _
   · split
     · exact ev_frame4 _ _
-    · have h := (ev_frame4 s [.start ⟨cid, a.name, 0⟩]).trans
-        (bindAll_frame4 cid a blocked a.listen (ev s [.start ⟨cid, a.name, 0⟩]))
-      generalize bindAll cid a blocked a.listen (ev s [.start ⟨cid, a.name, 0⟩]) = r at h
+    · have h := (ev_frame4 s [.start cid a.name]).trans
+        (bindAll_frame4 cid a blocked a.listen (ev s [.start cid a.name]))
+      generalize bindAll cid a blocked a.listen (ev s [.start cid a.name]) = r at h
       obtain ⟨s', b⟩ := r
       cases b with
       | true => exact h.trans (ev_frame4 _ _)
@@ -326,7 +339,9 @@ theorem own_stopApp {cid : Nat} {base : List Sock} {names : List Nat} {s : State
 theorem own_stopApps {cid : Nat} {base : List Sock} (hb : ∀ k ∈ base, k.cid ≠ cid) :
     ∀ (as : List App) (names : List Nat) (s : State), Own cid base names s →
       Own cid base (names.filter (fun n => n ∉ as.map (·.name))) (stopApps cid as s)
-  | [], names, s, h => by simpa [stopApps] using h
+  | [], names, s, h => by
+    refine Own.mono (s := s) h ?_
+    intro n hn; simp [hn]
   | a :: as, names, s, h => by
     unfold stopApps
     refine (own_stopApps hb as _ _ (own_stopApp a hb h)).mono ?_
@@ -347,9 +362,9 @@ theorem own_startApp {cid : Nat} {base : List Sock} {names : List Nat} {s : Stat
   · rename_i hh
     split
     · simp [hh]; exact h.socks_eq rfl
-    · have h0 : Own cid base names (ev s [.start ⟨cid, a.name, 0⟩]) := h.socks_eq rfl
+    · have h0 : Own cid base names (ev s [.start cid a.name]) := h.socks_eq rfl
       have h1 := own_bind a blocked a.listen h0
-      generalize bindAll cid a blocked a.listen (ev s [.start ⟨cid, a.name, 0⟩]) = r at h1
+      generalize bindAll cid a blocked a.listen (ev s [.start cid a.name]) = r at h1
       obtain ⟨s', b⟩ := r
       cases b with
       | true => simp; exact h1.socks_eq rfl
@@ -407,8 +422,8 @@ theorem startApp_ok {cid : Nat} {blocked : List Nat} {a : App} {s s' : State}
     rw [h2, appSocks_eq, h1]
   · split at h
     · simp at h
-    · obtain ⟨pre, suf, h1, h2, h3, _⟩ := bindAll_spec cid a blocked a.listen (ev s [.start ⟨cid, a.name, 0⟩])
-      generalize bindAll cid a blocked a.listen (ev s [.start ⟨cid, a.name, 0⟩]) = r at h h2 h3
+    · obtain ⟨pre, suf, h1, h2, h3, _⟩ := bindAll_spec cid a blocked a.listen (ev s [.start cid a.name])
+      generalize bindAll cid a blocked a.listen (ev s [.start cid a.name]) = r at h h2 h3
       obtain ⟨s1, b⟩ := r
       cases b with
       | false => simp at h
@@ -434,5 +449,795 @@ theorem startApps_ok {cid : Nat} {blocked : List Nat} : ∀ (rest started : List
       have := startApps_ok rest _ s1 s' h
       rw [this, startApp_ok hr]
       simp
+
+/-! ### a provisioning error is an error -/
+
+theorem faultRes_err (f : Nat) : (faultRes f).accepted = false := by
+  unfold faultRes; split <;> rfl
+
+theorem loadMod_err (cid app idx : Nat) (m : Mod) (s : State) (live : List Live) (r : Res)
+    (h : (loadMod cid app idx m s live).2.2 = some r) : r.accepted = false := by
+  unfold loadMod at h
+  split at h
+  · simp at h; rw [← h]; exact faultRes_err _
+  · unfold loadModAt at h
+    repeat' split at h
+    all_goals first
+      | (simp at h; rw [← h]; rfl)
+      | simp at h
+
+theorem loadMods_err (cid app : Nat) : ∀ (ms : List Mod) (idx : Nat) (s : State) (live : List Live) (r : Res),
+    (loadMods cid app idx ms s live).2.2 = some r → r.accepted = false
+  | [], _, _, _, r, h => by simp [loadMods] at h
+  | m :: ms, idx, s, live, r, h => by
+    unfold loadMods at h
+    have h0 := loadMod_err cid app idx m s live
+    generalize loadMod cid app idx m s live = q at h h0
+    obtain ⟨s', live', o⟩ := q
+    cases o with
+    | none => exact loadMods_err cid app ms (idx + 1) s' live' r h
+    | some r' => simp at h; exact h0 r (by simp [h])
+
+theorem loadApp_err (cid : Nat) (a : App) (s : State) (live : List Live) (r : Res)
+    (h : (loadApp cid a s live).2.2 = some r) : r.accepted = false := by
+  unfold loadApp at h
+  split at h
+  · simp at h; rw [← h]; exact faultRes_err _
+  · split at h
+    · have h0 := loadMods_err cid a.name a.mods 1 s live
+      generalize loadMods cid a.name 1 a.mods s live = q at h h0
+      obtain ⟨s', live', o⟩ := q
+      cases o with
+      | none =>
+        dsimp only at h
+        split at h
+        · simp at h
+        · simp at h; rw [← h]; rfl
+      | some r' => simp at h; exact h0 r (by simp [h])
+    · unfold loadProbeAppAt at h
+      have h0 := loadMods_err cid a.name a.mods 1 (ev (alloc s) [.prov ⟨s.nseq, cid, a.name, 0⟩]) live
+      dsimp only at h
+      generalize loadMods cid a.name 1 a.mods (ev (alloc s) [.prov ⟨s.nseq, cid, a.name, 0⟩]) live = q at h h0
+      obtain ⟨s', live', o⟩ := q
+      cases o with
+      | none =>
+        dsimp only at h
+        split at h
+        · simp at h; rw [← h]; rfl
+        · split at h
+          · simp at h; rw [← h]; rfl
+          · simp at h
+      | some r' => simp at h; exact h0 r (by simp [h])
+
+theorem loadApps_err (cid : Nat) : ∀ (as : List App) (s : State) (live : List Live) (r : Res),
+    (loadApps cid as s live).2.2 = some r → r.accepted = false
+  | [], _, _, r, h => by simp [loadApps] at h
+  | a :: as, s, live, r, h => by
+    unfold loadApps at h
+    have h0 := loadApp_err cid a s live
+    generalize loadApp cid a s live = q at h h0
+    obtain ⟨s', live', o⟩ := q
+    cases o with
+    | none => exact loadApps_err cid as s' live' r h
+    | some r' => simp at h; exact h0 r (by simp [h])
+
+theorem openLog_err (cid idx : Nat) (m : Mod) (s : State) (live : List Live) (wk : List Nat) (r : Res)
+    (h : (openLog cid idx m s live wk).2.2.2 = some r) : r.accepted = false := by
+  unfold openLog at h
+  split at h
+  · simp at h; rw [← h]; exact faultRes_err _
+  · unfold openLogAt at h
+    split at h
+    · simp at h; rw [← h]; rfl
+    · split at h
+      · simp at h; rw [← h]; rfl
+      · simp at h
+
+theorem openLogsFrom_err (cid : Nat) : ∀ (ms : List Mod) (idx : Nat) (s : State) (live : List Live)
+    (wk : List Nat) (r : Res), (openLogsFrom cid idx ms s live wk).2.2.2 = some r → r.accepted = false
+  | [], _, _, _, _, r, h => by simp [openLogsFrom] at h
+  | m :: ms, idx, s, live, wk, r, h => by
+    unfold openLogsFrom at h
+    have h0 := openLog_err cid idx m s live wk
+    generalize openLog cid idx m s live wk = q at h h0
+    obtain ⟨s', live', wk', o⟩ := q
+    cases o with
+    | none => exact openLogsFrom_err cid ms (idx + 1) s' live' wk' r h
+    | some r' => simp at h; exact h0 r (by simp [h])
+
+theorem provisionContext_err (cid : Nat) (c : Cfg) (pp : List Nat) (s : State) (r : Res)
+    (h : (provisionContext cid c pp s).2.2 = some r) : r.accepted = false := by
+  unfold provisionContext at h
+  have h1 := openLogsFrom_err cid c.logs 0 (openWriter 0 (ev s [.cbReg cid])) [] [0]
+  unfold openLogs at h
+  generalize openLogsFrom cid 0 c.logs (openWriter 0 (ev s [.cbReg cid])) [] [0] = q1 at h h1
+  obtain ⟨s1, live1, wk, o1⟩ := q1
+  cases o1 with
+  | some r' => simp at h; exact h1 r (by simp [h])
+  | none =>
+    dsimp only at h
+    have h2 := loadApps_err cid (order pp c.apps) s1 live1
+    generalize loadApps cid (order pp c.apps) s1 live1 = q2 at h h2
+    obtain ⟨s2, live2, o2⟩ := q2
+    cases o2 with
+    | some r' => simp at h; exact h2 r (by simp [h])
+    | none => simp at h
+
+/-! ### map order -/
+
+theorem takeApp_perm (n : Nat) : ∀ (l : List App) (a : App) (rest : List App),
+    takeApp n l = some (a, rest) → l.Perm (a :: rest)
+  | [], _, _, h => by simp [takeApp] at h
+  | b :: l, a, rest, h => by
+    unfold takeApp at h
+    split at h
+    · simp at h; obtain ⟨rfl, rfl⟩ := h; exact List.Perm.refl _
+    · generalize hr : takeApp n l = r at h
+      cases r with
+      | none => simp at h
+      | some p =>
+        obtain ⟨b', rest'⟩ := p
+        simp at h
+        obtain ⟨rfl, rfl⟩ := h
+        exact ((takeApp_perm n l _ _ hr).cons b).trans (List.Perm.swap _ _ _)
+
+theorem order_perm : ∀ (π : List Nat) (l : List App), (order π l).Perm l
+  | [], l => List.Perm.refl _
+  | n :: ns, l => by
+    unfold order
+    generalize hr : takeApp n l = r
+    cases r with
+    | none => exact order_perm ns l
+    | some p =>
+      obtain ⟨a, rest⟩ := p
+      exact ((order_perm ns rest).cons a).trans (takeApp_perm n l a rest hr).symm
+
+/-! ### Stop as a filter -/
+
+theorem stopApps_socks (cid : Nat) : ∀ (as : List App) (s : State),
+    (stopApps cid as s).socks = s.socks.filter (fun k => !(k.cid == cid && as.any (fun a => a.name == k.app)))
+  | [], s => by
+    show s.socks = _
+    rw [List.filter_eq_self.mpr]
+    intro k _; simp
+  | a :: as, s => by
+    unfold stopApps
+    rw [stopApps_socks cid as]
+    have : (stopApp cid a s).socks = s.socks.filter (fun k => !(k.cid == cid && k.app == a.name)) := by
+      unfold stopApp; split <;> rfl
+    rw [this, List.filter_filter]
+    apply List.filter_congr
+    intro k _
+    have hcomm : (a.name == k.app) = (k.app == a.name) := BEq.comm
+    simp only [List.any_cons, hcomm]
+    cases (k.cid == cid) <;> cases (k.app == a.name) <;> cases (as.any fun a => a.name == k.app) <;> rfl
+
+/-! ### finishSettingUp, run -/
+
+theorem finishSettingUp_spec (ctx : Ctx) (post : Bool) (s : State) :
+    Frame s (finishSettingUp ctx post s).1 ∧ (finishSettingUp ctx post s).2.1.cid = ctx.cid ∧
+    (finishSettingUp ctx post s).2.1.apps = ctx.apps ∧ (finishSettingUp ctx post s).2.2 = !post := by
+  unfold finishSettingUp finishSettingUpAt
+  cases post <;> simp <;> exact (frame_alloc s).trans (frame_ev _ _)
+
+theorem run_frame4 (cid : Nat) (c : Cfg) (e : Env) (s : State) : Frame4 s (run cid c e s).1 := by
+  unfold run
+  have h1 := (provisionContext_frame cid c e.pp s).to4
+  generalize provisionContext cid c e.pp s = r1 at h1
+  obtain ⟨s1, o1, e1⟩ := r1
+  cases e1 with
+  | some r => exact h1
+  | none =>
+    cases o1 with
+    | none => exact h1
+    | some ctx =>
+      dsimp only
+      have h2 := startApps_frame4 cid e.blocked (order e.ps ctx.apps) [] s1
+      generalize startApps cid e.blocked [] (order e.ps ctx.apps) s1 = r2 at h2
+      obtain ⟨s2, b⟩ := r2
+      cases b with
+      | false => exact (h1.trans h2).trans (cancel_frame _ _ _ _ _).to4
+      | true =>
+        dsimp only
+        have h3 := (finishSettingUp_spec ctx e.post s2).1.to4
+        generalize finishSettingUp ctx e.post s2 = r3 at h3
+        obtain ⟨s3, ctx', b3⟩ := r3
+        cases b3 with
+        | false => dsimp only; exact ((h1.trans h2).trans h3).trans (unsyncedStop_frame4 _ _)
+        | true => dsimp only; exact (h1.trans h2).trans h3
+
+/-- an accepted run: the context is the new one and the sockets are exactly the old ones plus
+    every listener of every app of the new configuration -/
+theorem run_ok {cid : Nat} {c : Cfg} {e : Env} {s s' : State} {o : Option Ctx}
+    (h : run cid c e s = (s', o, .ok)) :
+    ∃ ctx, o = some ctx ∧ ctx.cid = cid ∧ ctx.apps = c.apps ∧
+      s'.socks = s.socks ++ (order e.ps c.apps).flatMap (appSocks cid) := by
+  unfold run at h
+  have h1 := provisionContext_frame cid c e.pp s
+  have hc := provisionContext_ctx cid c e.pp s
+  have he := provisionContext_err cid c e.pp s
+  generalize provisionContext cid c e.pp s = r1 at h h1 hc he
+  obtain ⟨s1, o1, e1⟩ := r1
+  cases e1 with
+  | some r =>
+    simp at h
+    have := he r rfl
+    rw [h.2.2] at this
+    cases this
+  | none =>
+    cases o1 with
+    | none => simp at h
+    | some ctx =>
+      obtain ⟨hc1, hc2⟩ := hc s1 ctx rfl
+      dsimp only at h
+      generalize h2 : startApps cid e.blocked [] (order e.ps ctx.apps) s1 = r2 at h
+      obtain ⟨s2, b⟩ := r2
+      cases b with
+      | false => simp at h
+      | true =>
+        dsimp only at h
+        have h3 := finishSettingUp_spec ctx e.post s2
+        generalize finishSettingUp ctx e.post s2 = r3 at h h3
+        obtain ⟨s3, ctx', b3⟩ := r3
+        cases b3 with
+        | false => simp at h
+        | true =>
+          simp at h
+          obtain ⟨rfl, rfl⟩ := h
+          refine ⟨ctx', rfl, h3.2.1.trans hc1, h3.2.2.1.trans hc2, ?_⟩
+          rw [h3.1.socks, startApps_ok _ _ _ _ h2, h1.socks, hc2]
+
+/-- the clean variant of `own_startApps_fail`: if no HTTP app has a blocked listener after its
+    first one, a failing start loop leaves no socket of the rejected configuration at all -/
+theorem own_startApps_fail_clean {cid : Nat} {base : List Sock} (blocked : List Nat)
+    (hb : ∀ k ∈ base, k.cid ≠ cid) : ∀ (rest started : List App) (s : State),
+    (∀ a ∈ rest, a.isHttp = true → ∀ x ∈ a.listen.tail, x ∉ blocked) →
+    Own cid base (started.map (·.name)) s →
+    (startApps cid blocked started rest s).2 = false →
+    Own cid base [] (startApps cid blocked started rest s).1
+  | [], _, s, _, _, hf => by simp [startApps] at hf
+  | a :: rest, started, s, hx, h, hf => by
+    unfold startApps at hf ⊢
+    have h1 := own_startApp a blocked hb h
+    have hclean : a.isHttp = true → (startApp cid blocked a s).2 = false → (startApp cid blocked a s).1 = s := by
+      intro hh hfl
+      unfold startApp at hfl ⊢
+      simp only [hh, if_true] at hfl ⊢
+      obtain ⟨pre, suf, e1, e2, _, e4⟩ := bindAll_spec cid a blocked a.listen s
+      obtain ⟨x, suf', e5, e6⟩ := e4 hfl
+      cases pre with
+      | nil => rw [e2]; simp
+      | cons p pre' =>
+        exfalso
+        refine hx a List.mem_cons_self hh x ?_ e6
+        rw [e1, e5]; simp
+    generalize startApp cid blocked a s = r at h1 hf hclean
+    obtain ⟨s', b⟩ := r
+    cases b with
+    | true =>
+      simp only [true_or, if_true] at h1
+      refine own_startApps_fail_clean blocked hb rest (started ++ [a]) s'
+        (fun a' ha' => hx a' (List.mem_cons_of_mem _ ha')) (h1.mono ?_) hf
+      intro n hn; simp at hn ⊢; rcases hn with h | h
+      · exact Or.inr h
+      · exact Or.inl h
+    | false =>
+      have h1' : Own cid base (started.map (·.name)) s' := by
+        by_cases hh : a.isHttp = true
+        · have := hclean hh rfl
+          simp only at this
+          rw [this]; exact h
+        · simp only [Bool.false_eq_true, false_or, hh, if_false] at h1
+          exact h1
+      refine (own_stopApps hb started _ s' h1').mono ?_
+      intro n hn
+      simp only [List.mem_filter, decide_eq_true_eq] at hn
+      exact absurd hn.1 hn.2
+
+/-- closing every app of the configuration removes every socket of the context -/
+theorem own_stop_all {cid : Nat} {base : List Sock} (hb : ∀ k ∈ base, k.cid ≠ cid)
+    {names : List Nat} {as : List App} {s : State} (h : Own cid base names s)
+    (hs : ∀ n ∈ names, n ∈ as.map (·.name)) : (stopApps cid as s).socks = base := by
+  refine (Own.mono (own_stopApps hb as names s h) ?_).nil
+  intro n hn
+  simp only [List.mem_filter, decide_eq_true_eq] at hn
+  exact absurd (hs n hn.1) hn.2
+
+theorem own_of_flatMap {cid : Nat} {base : List Sock} {l : List App} {s : State}
+    (h : s.socks = base ++ l.flatMap (appSocks cid)) : Own cid base (l.map (·.name)) s := by
+  refine ⟨_, h, ?_⟩
+  intro k hk
+  obtain ⟨a, ha, hka⟩ := List.mem_flatMap.mp hk
+  obtain ⟨ad, _, rfl⟩ := List.mem_map.mp hka
+  exact ⟨rfl, List.mem_map.mpr ⟨a, ha, rfl⟩⟩
+
+/-- a rejected run leaves the old sockets untouched, in place; whatever else is left belongs to
+    the rejected configuration's HTTP app (nothing at all if `clean`) -/
+theorem run_err {cid : Nat} {c : Cfg} {e : Env} {s s' : State} {o : Option Ctx} {r : Res}
+    (hb : ∀ k ∈ s.socks, k.cid ≠ cid) (h : run cid c e s = (s', o, r)) (hr : r ≠ .ok) :
+    Own cid s.socks [3] s' ∧
+    ((∀ a ∈ c.apps, a.isHttp = true → ∀ x ∈ a.listen.tail, x ∉ e.blocked) → s'.socks = s.socks) := by
+  unfold run at h
+  have h1 := provisionContext_frame cid c e.pp s
+  have hc := provisionContext_ctx cid c e.pp s
+  generalize provisionContext cid c e.pp s = r1 at h h1 hc
+  obtain ⟨s1, o1, e1⟩ := r1
+  have base1 : Own cid s.socks [] s1 := ⟨[], by have := h1.socks; simp at this; simp [this], by simp⟩
+  cases e1 with
+  | some r' =>
+    simp at h
+    obtain ⟨rfl, _, _⟩ := h
+    exact ⟨base1.mono (by simp), fun _ => h1.socks⟩
+  | none =>
+    cases o1 with
+    | none =>
+      simp at h
+      obtain ⟨rfl, _, _⟩ := h
+      exact ⟨base1.mono (by simp), fun _ => h1.socks⟩
+    | some ctx =>
+      obtain ⟨hc1, hc2⟩ := hc s1 ctx rfl
+      dsimp only at h
+      have hf := own_startApps_fail e.blocked hb (order e.ps ctx.apps) [] s1 (by simpa using base1)
+      have hfc := own_startApps_fail_clean e.blocked hb (order e.ps ctx.apps) [] s1
+      generalize h2 : startApps cid e.blocked [] (order e.ps ctx.apps) s1 = r2 at h hf hfc
+      obtain ⟨s2, b⟩ := r2
+      cases b with
+      | false =>
+        simp at h
+        obtain ⟨rfl, _, _⟩ := h
+        have hs := (cancel_frame cid ctx.cbs ctx.wkeys ctx.live s2).socks
+        refine ⟨(hf rfl).socks_eq hs, fun hx => ?_⟩
+        rw [hs]
+        refine (hfc ?_ (by simpa using base1) rfl).nil
+        intro a ha
+        exact hx a (hc2 ▸ (order_perm e.ps ctx.apps).mem_iff.mp ha)
+      | true =>
+        dsimp only at h
+        have h3 := finishSettingUp_spec ctx e.post s2
+        generalize finishSettingUp ctx e.post s2 = r3 at h h3
+        obtain ⟨s3, ctx', b3⟩ := r3
+        cases b3 with
+        | true => simp at h; exact absurd h.2.2.symm hr
+        | false =>
+          simp at h
+          obtain ⟨rfl, _, _⟩ := h
+          have hsock : (unsyncedStop (some ctx') s3).socks = s.socks := by
+            unfold unsyncedStop
+            dsimp only
+            rw [(cancel_frame _ _ _ _ _).socks]
+            have hs3 : s3.socks = s.socks ++ (order e.ps ctx.apps).flatMap (appSocks cid) := by
+              rw [h3.1.socks, startApps_ok _ _ _ _ h2, h1.socks]
+            have hown := own_of_flatMap hs3
+            rw [h3.2.1, hc1]
+            refine own_stop_all hb hown ?_
+            intro n hn
+            rw [h3.2.2.1]
+            obtain ⟨a, ha, rfl⟩ := List.mem_map.mp hn
+            exact List.mem_map.mpr ⟨a, (order_perm e.ps ctx.apps).mem_iff.mp ha, rfl⟩
+          exact ⟨⟨[], by simp [hsock], by simp⟩, fun _ => hsock⟩
+
+/-! ### decodeAndRun, changeTo -/
+
+theorem not_httpBindExcluded {c : Cfg} {e : Env} (h : httpBindExcluded c e = false) :
+    ∀ a ∈ c.apps, a.isHttp = true → ∀ x ∈ a.listen.tail, x ∉ e.blocked := by
+  intro a ha hh x hx hb
+  unfold httpBindExcluded at h
+  rw [List.any_eq_false] at h
+  have := h a ha
+  simp [hh] at this
+  exact this x hx hb
+
+theorem decodeAndRun_ok {cid : Nat} {c : Cfg} {e : Env} {s0 s1 : State}
+    (h : decodeAndRun cid c e s0 = (s1, .ok)) :
+    ∃ s' ctx, run cid c e s0 = (s', some ctx, .ok) ∧ s1 = unsyncedStop s0.cur { s' with cur := some ctx } := by
+  unfold decodeAndRun at h
+  split at h
+  · simp at h
+  · generalize hrun : run cid c e s0 = q at h
+    obtain ⟨s', o, res⟩ := q
+    by_cases hok : res = .ok
+    · subst hok
+      obtain ⟨ctx, rfl, _⟩ := run_ok hrun
+      simp at h
+      exact ⟨s', ctx, rfl, h.symm⟩
+    · exfalso
+      cases o <;> cases res <;> simp at h hok
+
+theorem decodeAndRun_err {cid : Nat} {c : Cfg} {e : Env} {s0 s1 : State} {r : Res}
+    (hb : ∀ k ∈ s0.socks, k.cid ≠ cid) (h : decodeAndRun cid c e s0 = (s1, r)) (hr : r ≠ .ok) :
+    Frame4 s0 s1 ∧ Own cid s0.socks [3] s1 ∧
+    ((∀ a ∈ c.apps, a.isHttp = true → ∀ x ∈ a.listen.tail, x ∉ e.blocked) → s1.socks = s0.socks) := by
+  unfold decodeAndRun at h
+  split at h
+  · simp at h
+    obtain ⟨rfl, _⟩ := h
+    exact ⟨Frame4.rfl' _, ⟨[], by simp, by simp⟩, fun _ => rfl⟩
+  · have hf := run_frame4 cid c e s0
+    generalize hrun : run cid c e s0 = q at h hf
+    obtain ⟨s', o, res⟩ := q
+    by_cases hok : res = .ok
+    · subst hok
+      obtain ⟨ctx, rfl, _⟩ := run_ok hrun
+      simp at h
+      exact absurd h.2.symm hr
+    · have herr := run_err hb hrun hok
+      have : s1 = s' := by
+        cases o <;> cases res <;> simp at h hok ⊢ <;> exact h.1.symm
+      subst this
+      exact ⟨hf, herr.1, herr.2⟩
+
+/-- the four ways `changeTo` can go -/
+theorem changeTo_cases (c : Cfg) (e : Env) (s : State) :
+    (s.rawJSON = some c ∧ changeTo c e s = ({ s with raw := some c }, .same)) ∨
+    (changeTo c e s = ({ s with raw := s.rawJSON }, .errIndex)) ∨
+    (∃ s1, decodeAndRun s.next c e { s with raw := some c } = (s1, .ok) ∧
+      changeTo c e s = ({ s1 with rawJSON := some c }, .ok)) ∨
+    (∃ s1 r, r ≠ .ok ∧ decodeAndRun s.next c e { s with raw := some c } = (s1, r) ∧
+      changeTo c e s = ({ s1 with raw := s.rawJSON }, r)) := by
+  unfold changeTo
+  split
+  · rename_i h
+    simp at h
+    exact Or.inl ⟨h.2, rfl⟩
+  · split
+    · exact Or.inr (Or.inl rfl)
+    · generalize hq : decodeAndRun s.next c e { s with raw := some c } = q
+      obtain ⟨s1, res⟩ := q
+      by_cases hok : res = .ok
+      · subst hok
+        exact Or.inr (Or.inr (Or.inl ⟨s1, rfl, rfl⟩))
+      · refine Or.inr (Or.inr (Or.inr ⟨s1, res, hok, rfl, ?_⟩))
+        cases res <;> first | exact absurd rfl hok | rfl
+
+
+/-! ### rejected attempts -/
+
+theorem rejected_changes_nothing' (s : State) (c : Cfg) (e : Env)
+    (hw : s.raw = s.rawJSON) (hs : ∀ k ∈ s.socks, k.cid < s.next)
+    (hr : (changeTo c e s).2.accepted = false) :
+    (changeTo c e s).1.raw = s.raw ∧ (changeTo c e s).1.rawJSON = s.rawJSON ∧
+    (changeTo c e s).1.cur = s.cur ∧ (changeTo c e s).1.next = s.next ∧
+    Own s.next s.socks [3] (changeTo c e s).1 ∧
+    (httpBindExcluded c e = false → (changeTo c e s).1.socks = s.socks) := by
+  have hb : ∀ k ∈ s.socks, k.cid ≠ s.next := fun k hk => Nat.ne_of_lt (hs k hk)
+  have own0 : Own s.next s.socks [3] s := ⟨[], by simp, by simp⟩
+  rcases changeTo_cases c e s with ⟨_, h⟩ | h | ⟨s1, _, h⟩ | ⟨s1, r, hok, hq, h⟩
+  · rw [h] at hr; simp [Res.accepted] at hr
+  · rw [h]; exact ⟨hw.symm, rfl, rfl, rfl, own0.socks_eq rfl, fun _ => rfl⟩
+  · rw [h] at hr; simp [Res.accepted] at hr
+  · rw [h]
+    obtain ⟨hf, hown, hclean⟩ := decodeAndRun_err (s0 := { s with raw := some c }) hb hq hok
+    exact ⟨hw.symm, hf.rawJSON, hf.cur, hf.next, hown.socks_eq rfl,
+      fun hx => hclean (not_httpBindExcluded hx)⟩
+
+/-! ### accepted attempts; the invariant of histories without the F2 event -/
+
+/-- what stopping the old context does to the socket list -/
+def closeOld (old : Option Ctx) (l : List Sock) : List Sock :=
+  match old with
+  | none => l
+  | some o => l.filter (fun k => !(k.cid == o.cid && o.apps.any (fun a => a.name == k.app)))
+
+theorem unsyncedStop_socks (old : Option Ctx) (s : State) :
+    (unsyncedStop old s).socks = closeOld old s.socks := by
+  unfold unsyncedStop closeOld
+  cases old with
+  | none => rfl
+  | some o => dsimp only; rw [(cancel_frame _ _ _ _ _).socks, stopApps_socks]
+
+/-- an accepted attempt: raw tree = submitted config, the current context is the new one, the
+    old context's sockets are closed and the new config's listeners are all bound -/
+theorem changeTo_ok {c : Cfg} {e : Env} {s : State} (h : (changeTo c e s).2 = .ok) :
+    (changeTo c e s).1.raw = some c ∧ (changeTo c e s).1.rawJSON = some c ∧
+    (changeTo c e s).1.next = s.next ∧
+    (∃ ctx, (changeTo c e s).1.cur = some ctx ∧ ctx.cid = s.next ∧ ctx.apps = c.apps) ∧
+    (changeTo c e s).1.socks = closeOld s.cur (s.socks ++ (order e.ps c.apps).flatMap (appSocks s.next)) := by
+  rcases changeTo_cases c e s with ⟨_, h'⟩ | h' | ⟨s1, hq, h'⟩ | ⟨s1, r, hok, hq, h'⟩
+  · rw [h'] at h; cases h
+  · rw [h'] at h; cases h
+  · rw [h']
+    obtain ⟨s', ctx, hrun, rfl⟩ := decodeAndRun_ok hq
+    obtain ⟨ctx', hctx, h1, h2, h3⟩ := run_ok hrun
+    cases hctx
+    have hf := run_frame4 s.next c e { s with raw := some c }
+    rw [hrun] at hf
+    have hu := unsyncedStop_frame4 ({ s with raw := some c } : State).cur { s' with cur := some ctx }
+    refine ⟨hu.raw.trans hf.raw, rfl, hu.next.trans hf.next, ⟨ctx, hu.cur, h1, h2⟩, ?_⟩
+    show (unsyncedStop _ _).socks = _
+    rw [unsyncedStop_socks]
+    show closeOld s.cur s'.socks = _
+    rw [h3]
+  · rw [h'] at h; exact absurd h hok
+
+theorem run_accepted {cid : Nat} {c : Cfg} {e : Env} {s s' : State} {o : Option Ctx} {r : Res}
+    (h : run cid c e s = (s', o, r)) (ha : r.accepted = true) : r = .ok := by
+  unfold run at h
+  have he := provisionContext_err cid c e.pp s
+  generalize provisionContext cid c e.pp s = r1 at h he
+  obtain ⟨s1, o1, e1⟩ := r1
+  cases e1 with
+  | some r' =>
+    simp at h
+    have := he r' rfl
+    rw [h.2.2, ha] at this
+    cases this
+  | none =>
+    cases o1 with
+    | none => simp at h; rw [← h.2.2] at ha; cases ha
+    | some ctx =>
+      dsimp only at h
+      generalize startApps cid e.blocked [] (order e.ps ctx.apps) s1 = r2 at h
+      obtain ⟨s2, b⟩ := r2
+      cases b with
+      | false => simp at h; rw [← h.2.2] at ha; cases ha
+      | true =>
+        dsimp only at h
+        generalize finishSettingUp ctx e.post s2 = r3 at h
+        obtain ⟨s3, ctx', b3⟩ := r3
+        cases b3 with
+        | false => simp at h; rw [← h.2.2] at ha; cases ha
+        | true => simp at h; exact h.2.2.symm
+
+theorem decodeAndRun_accepted {cid : Nat} {c : Cfg} {e : Env} {s0 s1 : State} {r : Res}
+    (h : decodeAndRun cid c e s0 = (s1, r)) (ha : r.accepted = true) : r = .ok := by
+  unfold decodeAndRun at h
+  split at h
+  · simp at h; rw [← h.2] at ha; cases ha
+  · generalize hrun : run cid c e s0 = q at h
+    obtain ⟨s', o, res⟩ := q
+    by_cases hok : res = .ok
+    · subst hok
+      obtain ⟨ctx, rfl, _⟩ := run_ok hrun
+      simp at h; exact h.2.symm
+    · have : r = res := by
+        cases o <;> cases res <;> simp at h hok ⊢ <;> exact h.2.symm
+      subst this
+      exact absurd (run_accepted hrun ha) hok
+
+theorem changeTo_same {c : Cfg} {e : Env} {s : State} (h : (changeTo c e s).2 = .same) :
+    s.rawJSON = some c ∧ (changeTo c e s).1 = { s with raw := some c } := by
+  rcases changeTo_cases c e s with ⟨h0, h'⟩ | h' | ⟨s1, hq, h'⟩ | ⟨s1, r, hok, hq, h'⟩
+  · rw [h']; exact ⟨h0, rfl⟩
+  · rw [h'] at h; cases h
+  · rw [h'] at h; cases h
+  · exfalso
+    rw [h'] at h
+    simp only at h
+    subst h
+    have := decodeAndRun_accepted hq rfl
+    cases this
+
+theorem changeTo_accepted {c : Cfg} {e : Env} {s : State} (h : (changeTo c e s).2.accepted = true) :
+    (changeTo c e s).2 = .ok ∨ (changeTo c e s).2 = .same := by
+  rcases changeTo_cases c e s with ⟨h0, h'⟩ | h' | ⟨s1, hq, h'⟩ | ⟨s1, r, hok, hq, h'⟩
+  · rw [h']; exact Or.inr rfl
+  · rw [h'] at h; cases h
+  · rw [h']; exact Or.inl rfl
+  · rw [h'] at h ⊢
+    exact Or.inl (decodeAndRun_accepted hq h)
+
+/-! ### the invariant: the server is exactly what the spec says is running -/
+
+def RunInv (s : State) : Option Cfg → Prop
+  | none => s.cur = none ∧ s.socks = []
+  | some c => ∃ ctx, s.cur = some ctx ∧ ctx.apps = c.apps ∧ ctx.cid < s.next ∧
+      (∀ k ∈ s.socks, k.cid = ctx.cid ∧ k.app ∈ c.apps.map (·.name)) ∧
+      (answers s).Perm (Spec.cfgAnswers (some c))
+
+structure Inv (s : State) (r : Option Cfg) : Prop where
+  raw : s.raw = r
+  rawJSON : s.rawJSON = r
+  sockCid : ∀ k ∈ s.socks, k.cid < s.next
+  run : RunInv s r
+
+theorem inv_init : Inv State.init none := ⟨rfl, rfl, by simp [State.init], ⟨rfl, rfl⟩⟩
+
+theorem closeOld_inv {s : State} {r : Option Cfg} (h : Inv s r) (new : List Sock)
+    (hn : ∀ k ∈ new, k.cid = s.next) : closeOld s.cur (s.socks ++ new) = new := by
+  cases r with
+  | none =>
+    obtain ⟨h1, h2⟩ := h.run
+    rw [h1, h2]; rfl
+  | some c =>
+    obtain ⟨ctx, h1, h2, h3, h4, _⟩ := h.run
+    rw [h1]
+    unfold closeOld
+    dsimp only
+    rw [List.filter_append]
+    have e1 : s.socks.filter (fun k => !(k.cid == ctx.cid && ctx.apps.any (fun a => a.name == k.app))) = [] := by
+      apply List.filter_eq_nil_iff.mpr
+      intro k hk
+      obtain ⟨hc, ha⟩ := h4 k hk
+      rw [← h2] at ha
+      obtain ⟨a, ha1, ha2⟩ := List.mem_map.mp ha
+      have : ctx.apps.any (fun a => a.name == k.app) = true := List.any_eq_true.mpr ⟨a, ha1, by simp [ha2]⟩
+      simp [hc, this]
+    have e2 : new.filter (fun k => !(k.cid == ctx.cid && ctx.apps.any (fun a => a.name == k.app))) = new := by
+      apply List.filter_eq_self.mpr
+      intro k hk
+      have : k.cid ≠ ctx.cid := by rw [hn k hk]; exact Nat.ne_of_gt h3
+      simp [this]
+    rw [e1, e2]; rfl
+
+theorem answers_new (cid : Nat) (l : List App) :
+    (l.flatMap (appSocks cid)).map (fun k => (k.addr, k.tag)) = l.flatMap Spec.appAnswers := by
+  induction l with
+  | nil => rfl
+  | cons a l ih =>
+    simp only [List.flatMap_cons, List.map_append, ih]
+    congr 1
+    simp [appSocks, Spec.appAnswers]
+
+/-- one attempt outside F2's region keeps the invariant, with the spec's all-or-nothing update -/
+theorem inv_changeTo {s : State} {r : Option Cfg} (h : Inv s r) (c : Cfg) (e : Env)
+    (hx : httpBindExcluded c e = false) :
+    Inv (bump (changeTo c e s)).1 (bif (changeTo c e s).2.accepted then some c else r) := by
+  cases ha : (changeTo c e s).2.accepted with
+  | false =>
+    simp only [cond_false]
+    obtain ⟨h1, h2, h3, h4, _, h6⟩ :=
+      rejected_changes_nothing' s c e (h.raw.trans h.rawJSON.symm) h.sockCid ha
+    have h6 := h6 hx
+    refine ⟨h1.trans h.raw, h2.trans h.rawJSON, ?_, ?_⟩
+    · intro k hk
+      show k.cid < (changeTo c e s).1.next + 1
+      rw [h4]
+      have hk' : k ∈ (changeTo c e s).1.socks := hk
+      rw [h6] at hk'
+      exact Nat.lt_succ_of_lt (h.sockCid k hk')
+    · cases r with
+      | none =>
+        obtain ⟨r1, r2⟩ := h.run
+        exact ⟨h3.trans r1, h6.trans r2⟩
+      | some c0 =>
+        obtain ⟨ctx, r1, r2, r3, r4, r5⟩ := h.run
+        refine ⟨ctx, h3.trans r1, r2, ?_, ?_, ?_⟩
+        · show ctx.cid < (changeTo c e s).1.next + 1
+          rw [h4]; exact Nat.lt_succ_of_lt r3
+        · intro k hk
+          have hk' : k ∈ (changeTo c e s).1.socks := hk
+          rw [h6] at hk'
+          exact r4 k hk'
+        · show ((changeTo c e s).1.socks.map _).Perm _
+          rw [h6]; exact r5
+  | true =>
+    simp only [cond_true]
+    rcases changeTo_accepted ha with hok | hsame
+    · obtain ⟨h1, h2, h3, ⟨ctx, h4, h5, h6⟩, h7⟩ := changeTo_ok hok
+      have hnew : ∀ k ∈ (order e.ps c.apps).flatMap (appSocks s.next), k.cid = s.next := by
+        intro k hk
+        obtain ⟨a, _, hka⟩ := List.mem_flatMap.mp hk
+        obtain ⟨ad, _, rfl⟩ := List.mem_map.mp hka
+        rfl
+      rw [closeOld_inv h _ hnew] at h7
+      refine ⟨h1, h2, ?_, ctx, h4, h6, ?_, ?_, ?_⟩
+      · intro k hk
+        show k.cid < (changeTo c e s).1.next + 1
+        have hk' : k ∈ (changeTo c e s).1.socks := hk
+        rw [h3]; rw [h7] at hk'; rw [hnew k hk']; exact Nat.lt_succ_self _
+      · show ctx.cid < (changeTo c e s).1.next + 1
+        rw [h3, h5]; exact Nat.lt_succ_self _
+      · intro k hk0
+        have hk : k ∈ (changeTo c e s).1.socks := hk0
+        rw [h7] at hk
+        refine ⟨(hnew k hk).trans h5.symm, ?_⟩
+        obtain ⟨a, ha1, hka⟩ := List.mem_flatMap.mp hk
+        obtain ⟨ad, _, rfl⟩ := List.mem_map.mp hka
+        exact List.mem_map.mpr ⟨a, (order_perm e.ps c.apps).mem_iff.mp ha1, rfl⟩
+      · show ((changeTo c e s).1.socks.map _).Perm _
+        rw [h7, answers_new]
+        exact (order_perm e.ps c.apps).flatMap_right _
+    · obtain ⟨h0, h1⟩ := changeTo_same hsame
+      have hr : r = some c := h.rawJSON.symm.trans h0
+      subst hr
+      show Inv { (changeTo c e s).1 with next := (changeTo c e s).1.next + 1 } (some c)
+      rw [h1]
+      exact ⟨rfl, h.rawJSON, fun k hk => Nat.lt_succ_of_lt (h.sockCid k hk), by
+        obtain ⟨ctx, r1, r2, r3, r4, r5⟩ := h.run
+        exact ⟨ctx, r1, r2, Nat.lt_succ_of_lt r3, r4, r5⟩⟩
+
+theorem inv_frame_bump {s s' : State} {r : Option Cfg} (h : Inv s r) (hf : Frame s s') (res : Res) :
+    Inv (bump (s', res)).1 r := by
+  refine ⟨hf.raw.trans h.raw, hf.rawJSON.trans h.rawJSON, ?_, ?_⟩
+  · intro k hk
+    have hk' : k ∈ s'.socks := hk
+    rw [hf.socks] at hk'
+    show k.cid < s'.next + 1
+    rw [hf.next]; exact Nat.lt_succ_of_lt (h.sockCid k hk')
+  · cases r with
+    | none =>
+      obtain ⟨r1, r2⟩ := h.run
+      exact ⟨hf.cur.trans r1, hf.socks.trans r2⟩
+    | some c0 =>
+      obtain ⟨ctx, r1, r2, r3, r4, r5⟩ := h.run
+      refine ⟨ctx, hf.cur.trans r1, r2, ?_, ?_, ?_⟩
+      · show ctx.cid < s'.next + 1
+        rw [hf.next]; exact Nat.lt_succ_of_lt r3
+      · intro k hk
+        have hk' : k ∈ s'.socks := hk
+        rw [hf.socks] at hk'
+        exact r4 k hk'
+      · show (s'.socks.map _).Perm _
+        rw [hf.socks]; exact r5
+
+theorem validate_frame (c : Cfg) (e : Env) (s : State) : Frame s (validate c e s).1 := by
+  unfold validate
+  have h1 := provisionContext_frame s.next c e.pp s
+  generalize provisionContext s.next c e.pp s = q at h1
+  obtain ⟨s1, o, r⟩ := q
+  cases r with
+  | some r => exact h1
+  | none =>
+    cases o with
+    | none => exact h1
+    | some ctx => exact h1.trans (cancel_frame _ _ _ _ _)
+
+/-- one operation outside F2's region keeps the invariant; the spec is told only whether the
+    operation was accepted -/
+theorem inv_step {s : State} {r : Option Cfg} (h : Inv s r) (op : Op) (hx : excluded r op = false) :
+    Inv (step s op).1 (Spec.step r op (step s op).2.accepted) := by
+  cases op with
+  | load c e =>
+    have := inv_changeTo h c e (by simpa [excluded, Spec.attempted, opEnv] using hx)
+    show Inv (bump (changeTo c e s)).1 (Spec.step r (.load c e) (changeTo c e s).2.accepted)
+    cases hacc : (changeTo c e s).2.accepted <;> rw [hacc] at this <;> exact this
+  | patch a e =>
+    unfold step
+    rw [h.raw]
+    cases r with
+    | none => exact inv_frame_bump h (Frame.rfl' s) _
+    | some c0 =>
+      dsimp only
+      cases hra : replaceApp a c0.apps with
+      | none => exact inv_frame_bump h (Frame.rfl' s) _
+      | some apps =>
+        have := inv_changeTo h { c0 with apps := apps } e
+          (by simpa [excluded, Spec.attempted, opEnv, hra] using hx)
+        show Inv (bump (changeTo { c0 with apps := apps } e s)).1
+          (Spec.step (some c0) (.patch a e) (changeTo { c0 with apps := apps } e s).2.accepted)
+        cases hacc : (changeTo { c0 with apps := apps } e s).2.accepted <;> rw [hacc] at this
+        · exact this
+        · simpa [Spec.step, Spec.attempted, hra] using this
+  | del n e =>
+    unfold step
+    rw [h.raw]
+    cases r with
+    | none => exact inv_frame_bump h (Frame.rfl' s) _
+    | some c0 =>
+      dsimp only
+      cases hra : removeApp n c0.apps with
+      | none => exact inv_frame_bump h (Frame.rfl' s) _
+      | some apps =>
+        have := inv_changeTo h { c0 with apps := apps } e
+          (by simpa [excluded, Spec.attempted, opEnv, hra] using hx)
+        show Inv (bump (changeTo { c0 with apps := apps } e s)).1
+          (Spec.step (some c0) (.del n e) (changeTo { c0 with apps := apps } e s).2.accepted)
+        cases hacc : (changeTo { c0 with apps := apps } e s).2.accepted <;> rw [hacc] at this
+        · exact this
+        · simpa [Spec.step, Spec.attempted, hra] using this
+  | junk => exact inv_frame_bump h (Frame.rfl' s) _
+  | validate c e =>
+    have := inv_frame_bump h (validate_frame c e s) (validate c e s).2
+    simpa [step, Spec.step] using this
+  | stop =>
+    have hs : (unsyncedStop s.cur s).socks = [] := by
+      rw [unsyncedStop_socks]
+      have := closeOld_inv h [] (by simp)
+      simpa using this
+    have hf := unsyncedStop_frame4 s.cur s
+    refine ⟨rfl, rfl, ?_, ⟨rfl, hs⟩⟩
+    intro k hk
+    have hk' : k ∈ (unsyncedStop s.cur s).socks := hk
+    rw [hs] at hk'
+    cases hk'
+
+theorem inv_runBoth : ∀ (ops : List Op) (s : State) (r : Option Cfg), Inv s r →
+    noExcluded s r ops = true → Inv (runBoth s r ops).1 (runBoth s r ops).2
+  | [], _, _, h, _ => h
+  | o :: os, s, r, h, hx => by
+    unfold noExcluded at hx
+    simp only [Bool.and_eq_true, Bool.not_eq_true'] at hx
+    unfold runBoth
+    exact inv_runBoth os _ _ (inv_step h o hx.1) hx.2
 
 end CaddyModel.C01
